@@ -1,7 +1,7 @@
 // htlc: driver for the HTLC module (properties C03, C04).
 //
-// A history is a parameter set (three assets: one not time-limited, one time-limited with a
-// short period, one inactive; two deputies) and a list of steps in the model's vocabulary:
+// A history is a parameter set (three assets: two active ones, usually both time-limited with
+// different short periods, and an inactive one; two deputies) and a list of steps in the model's vocabulary:
 // create (plain / cross-chain), claim, and runs of block boundaries with their time steps.
 // Every block is really executed (heights are never skipped).
 package main
@@ -116,7 +116,10 @@ func genParams(r *lib.Rand) []AssetP {
 	if r.Chance(1, 5) {
 		dep2 = 3
 	}
-	return []AssetP{mk(0, false, 3, true), mk(1, true, dep2, true), mk(2, false, 3, false)}
+	// usually two active time-limited assets with different periods / limits (the per-block window update
+	// loops over all assets: each asset's window must follow its own rule whatever its position), and
+	// sometimes a third, inactive, time-limited one
+	return []AssetP{mk(0, r.Chance(3, 4), 3, true), mk(1, true, dep2, true), mk(2, r.Chance(1, 2), 3, false)}
 }
 
 // gen draws a history while executing it against a live chain, so that amounts, parties and
@@ -138,7 +141,6 @@ func gen(r *lib.Rand, tier, stream string, i int) History {
 		h.Steps = append(h.Steps, st)
 		return w.apply(st)
 	}
-	period := h.Params[1].PeriodMs
 	var cs []*genC // successfully created
 	var failed []*genC
 	tag := 0
@@ -190,9 +192,13 @@ func gen(r *lib.Rand, tier, stream string, i int) History {
 	}
 	dtPick := func() (int64, bool) {
 		switch r.Weighted(6, 2, 1) {
-		case 1: // land on / around the boundary of the limit period
-			_, _, _, _, el := supply(1)
-			return period - el + r.Range(-1, 1), true
+		case 1: // land on / around the boundary of the limit period of one of the time-limited assets
+			d := 1
+			if h.Params[0].TL && r.Chance(1, 2) {
+				d = 0
+			}
+			_, _, _, _, el := supply(d)
+			return h.Params[d].PeriodMs - el + r.Range(-1, 1), true
 		case 2:
 			return r.Range(0, 2), true
 		}
@@ -221,10 +227,14 @@ func gen(r *lib.Rand, tier, stream string, i int) History {
 		}
 		return m
 	}
+	forceD := -1 // >= 0: the next create is an incoming transfer on this asset, as large as its limits allow
 	create := func() {
 		tag++
 		st := Step{Kind: "create", Tag: tag, Secret: tag, TsOff: r.Range(-850, 1750)}
 		kind := r.Weighted(20, 14, 10, 1, 1) // plain, incoming, outgoing, unsupported asset, inactive asset
+		if forceD >= 0 {
+			kind = 1
+		}
 		// outgoing needs a user holding the asset
 		var holders [][2]int
 		for u := 0; u < 3; u++ {
@@ -297,7 +307,15 @@ func gen(r *lib.Rand, tier, stream string, i int) History {
 			if p.TL {
 				room = minI(room, p.Tbl-tlc-in)
 			}
-			if room < p.Min && r.Chance(3, 4) { // the other asset may have room
+			if forceD >= 0 {
+				d = forceD
+				p = h.Params[d]
+				in, _, cur, tlc, _ = supply(d)
+				room = p.Limit - cur - in
+				if p.TL {
+					room = minI(room, p.Tbl-tlc-in)
+				}
+			} else if room < p.Min && r.Chance(3, 4) { // the other asset may have room
 				d = 1 - d
 				p = h.Params[d]
 				in, _, cur, tlc, _ = supply(d)
@@ -322,6 +340,12 @@ func gen(r *lib.Rand, tier, stream string, i int) History {
 				amt = room + 1
 			case 5:
 				amt = []int64{p.Min - 1, p.Max + 1}[r.Intn(2)]
+			}
+			if forceD >= 0 && hi >= p.Min {
+				amt = hi
+				if r.Chance(1, 3) && hi > p.Min {
+					amt = r.Range((hi+p.Min)/2, hi)
+				}
 			}
 			if amt <= 0 {
 				amt = 1
@@ -464,6 +488,35 @@ func gen(r *lib.Rand, tier, stream string, i int) History {
 		c.claims++
 		push(st)
 	}
+	// burst: incoming transfers on ONE time-limited asset, each as large as the limits allow, completed over
+	// consecutive short blocks inside one limit period - the total is pushed against that asset's time-based
+	// limit while the other assets' windows run with their own periods
+	burst := func() {
+		var tls []int
+		for d := 0; d < 2; d++ {
+			if h.Params[d].TL {
+				tls = append(tls, d)
+			}
+		}
+		if len(tls) == 0 {
+			create()
+			return
+		}
+		d := tls[r.Intn(len(tls))]
+		if len(tls) == 2 && r.Chance(1, 2) {
+			d = 1 // the asset that is not listed first
+		}
+		for k := int(r.Range(2, 4)); k > 0 && len(h.Steps) < nsteps; k-- {
+			n := len(cs)
+			forceD = d
+			create()
+			forceD = -1
+			if len(cs) > n {
+				claim(cs[len(cs)-1], true)
+			}
+			advance(r.Range(1, 2), r.Range(300, 2500), false)
+		}
+	}
 	anyC := func() *genC {
 		if len(failed) > 0 && (len(cs) == 0 || r.Chance(1, 8)) {
 			return failed[r.Intn(len(failed))]
@@ -486,6 +539,8 @@ func gen(r *lib.Rand, tier, stream string, i int) History {
 			}
 		}
 		switch {
+		case len(cs) > 0 && r.Chance(1, 7):
+			burst()
 		case len(cs)+len(failed) == 0 || (len(cs) < targetCreates && r.Chance(2, 3)):
 			create()
 			if r.Chance(1, 3) {
